@@ -525,3 +525,88 @@ func reachers(g map[string]map[string]bool, pred func(name string) bool) map[str
 	}
 	return out
 }
+
+// checkRemoveWhileIndexing: a counting loop that reads X at its counter (X.GetValue(i), X[i])
+// and removes from the same X in its body must not advance the counter on the removing path:
+// the element that slides into the vacated position is otherwise never examined.
+func checkRemoveWhileIndexing(c *Ctx, r *Rec, rule string, info *types.Info, fds []*ast.FuncDecl) int {
+	n := 0
+	for _, fd := range fds {
+		if fd.Body == nil {
+			continue
+		}
+		for li, loop := range loopsIn(fd.Body) {
+			fs, ok := loop.(*ast.ForStmt)
+			if !ok || fs.Post == nil {
+				continue
+			}
+			inc, ok := fs.Post.(*ast.IncDecStmt)
+			if !ok || inc.Tok != token.INC {
+				continue
+			}
+			counter := identObj(info, inc.X)
+			if counter == nil {
+				continue
+			}
+			// the collection read at the counter
+			var coll types.Object
+			inspectNoLit(fs.Body, func(x ast.Node) bool {
+				if rx, mname, call, ok := methodCall(x); ok && mname == "GetValue" && len(call.Args) == 1 && isObj(info, call.Args[0], counter) {
+					coll = identObj(info, rx)
+				}
+				if ix, ok := x.(*ast.IndexExpr); ok && isObj(info, ix.Index, counter) {
+					if o := identObj(info, ix.X); o != nil {
+						coll = o
+					}
+				}
+				return true
+			})
+			if coll == nil {
+				continue
+			}
+			// removals from that collection, and whether the same block steps the counter back
+			inspectNoLit(fs.Body, func(x ast.Node) bool {
+				blk, ok := x.(*ast.BlockStmt)
+				if !ok {
+					return true
+				}
+				var removal ast.Node
+				back := false
+				for _, st := range blk.List {
+					if es, ok := st.(*ast.ExprStmt); ok {
+						if rx, mname, _, ok := methodCall(es.X); ok && isObj(info, rx, coll) && (mname == "RemoveValue" || mname == "RemoveValues") {
+							removal = es
+						}
+					}
+					if as, ok := st.(*ast.AssignStmt); ok {
+						for _, rhs := range as.Rhs {
+							if rx, mname, _, ok := methodCall(ast.Unparen(rhs)); ok && isObj(info, rx, coll) && (mname == "RemoveValue" || mname == "RemoveValues") {
+								removal = as
+							}
+						}
+					}
+					if d, ok := st.(*ast.IncDecStmt); ok && d.Tok == token.DEC && identObj(info, d.X) == counter {
+						back = true
+					}
+					if as, ok := st.(*ast.AssignStmt); ok && as.Tok == token.SUB_ASSIGN && len(as.Lhs) == 1 && identObj(info, as.Lhs[0]) == counter {
+						back = true
+					}
+					if b, ok := st.(*ast.BranchStmt); ok && b.Tok == token.BREAK {
+						back = true // the loop ends after the removal
+					}
+					if _, ok := st.(*ast.ReturnStmt); ok {
+						back = true
+					}
+				}
+				if removal != nil {
+					n++
+					construct := fmt.Sprintf("%s/loop#%d", c.fdName(fd), li+1)
+					r.check(back, rule, construct, c.pos(removal.Pos()), "after a removal the counter is stepped back (or the loop ends)",
+						fmt.Sprintf("the loop reads %s at the counter %s and removes from %s in its body, but still advances the counter after a removal: the element that moves into the vacated position is skipped", coll.Name(), counter.Name(), coll.Name()))
+				}
+				return true
+			})
+		}
+	}
+	return n
+}
